@@ -12,12 +12,17 @@ stages: explicit  the hand-written configurations named by the property (Explici
         chain     longer paths: up to MaxDrv plain bit-to-bit records over two signals
         branch    statements in the branches of one If/Elif/Else or Switch/Case chain (first match wins: branch i depends on
                   the tests of branches 1..i) together with plain records closing a loop
+        mix       several independent clusters in one netlist: one multi-bit bit-precise (~ & | ^ Mux over Cat) or word-level
+                  cell on signal 1 whose bits feed other bits of the same signal (down, up, back into a non-first bit),
+                  plain closers, and an UNRELATED statement on signal 2 (+ == < << reductions bit_select ~ & Mux, an
+                  If/Elif/Else chain, a primitive output) in the same or another module; every order-free configuration
+                  is built in EVERY statement order (TLC checks PermutationInvariance of the verdict)
         mutants   conflict judged per signal / cycle judged per signal / a branch depending on its own test only must
                   violate a theorem
 bind:   every state is built with the real amaranth twice: through the Module DSL (`m.d.<dom> +=`, `with m.If`,
         `m.submodules`, Instance / MemoryInstance / IOBufferInstance; rtlil.convert) and through the Fragment API
         (`add_statements`, `add_subfragment`; build_netlist) where the DSL's early per-module check cannot pre-empt the
-        whole-design check; configurations whose memory / buffer output covers a whole signal are built a third time with
+        whole-design check (Fragment API + rtlil.convert in the permutation stages); configurations whose memory / buffer output covers a whole signal are built a third time with
         lib.memory.Memory / lib.io.Buffer (the signal is the port's data / i member).  The observed class
         (ok | driver_conflict | comb_cycle | other:<exception>) must be an element of the set TLC computed."""
 import os
@@ -37,6 +42,7 @@ CONSTANTS
  Vocab <- {vocab}
  MaxDrv = {maxdrv}
  MaxRich = {maxrich}
+ Keep <- {keep}
  UseExplicit = {explicit}
  Mutant = "{mutant}"
 INVARIANT OutcomeShape
@@ -48,6 +54,7 @@ INVARIANT ForwardOnlyNoCycle
 INVARIANT Monotone
 INVARIANT OrderIrrelevant
 INVARIANT ChainPriority
+INVARIANT PermutationInvariance
 CHECK_DEADLOCK FALSE
 """
 
@@ -56,13 +63,17 @@ ALL_SHAPES = '{"top", "child", "sib", "chain"}'
 DOMAINS = ("comb", "d1", "d2")
 
 
-def inst(shapes, sigws, vocab, maxdrv, maxrich=0, explicit="FALSE", mutant=""):
-    return dict(shapes=shapes, sigws=sigws, vocab=vocab, maxdrv=maxdrv, maxrich=maxrich, explicit=explicit, mutant=mutant)
+def inst(shapes, sigws, vocab, maxdrv, maxrich=0, explicit="FALSE", mutant="", keep="KeepAll"):
+    return dict(shapes=shapes, sigws=sigws, vocab=vocab, maxdrv=maxdrv, maxrich=maxrich, explicit=explicit, mutant=mutant,
+                keep=keep)
+
+
+PERM_STAGES = ("mix", "explicit", "cov")       # stages whose order-free configurations are built in every statement order
 
 
 def stages(th):
     s = [("explicit", inst("{}", "NoWs", "VocabPlaceFew", 0, explicit="TRUE")),
-         ("cov", inst('{"top"}', "W3", "VocabChain", 2))]           # small run with -coverage 1 (vacuity guard on Next)
+         ("cov", inst('{"top"}', "W3", "VocabChain", 1))]           # tiny run with -coverage 1 (vacuity guard on Next)
     if th:
         s += [("place2", inst(ALL_SHAPES, "W3", "VocabPlaceAll", 2)),
               ("place3", inst(ALL_SHAPES, "W3", "VocabPlaceFew", 3)),
@@ -71,12 +82,14 @@ def stages(th):
               ("dep2", inst('{"child"}', "W3", "VocabDepQ", 2, maxrich=2)),
               ("chain", inst('{"child"}', "W22", "VocabChain", 4)),
               ("branch", inst('{"child"}', "W3W22", "VocabBranchT", 2, maxrich=2)),
-              ("branch3", inst('{"top"}', "W3", "VocabBranchQ", 3, maxrich=3))]
+              ("branch3", inst('{"top"}', "W3", "VocabBranchQ", 3, maxrich=3)),
+              ("mix", inst('{"top", "child"}', "W32", "VocabMixT", 3, maxrich=3, keep="KeepMix"))]
     else:
         s += [("place2", inst(ALL_SHAPES, "W3", "VocabPlaceQ", 2)),
               ("dep", inst('{"chain"}', "W3", "VocabDepQ", 2, maxrich=1)),
               ("chain", inst('{"child"}', "W22", "VocabChain", 3)),
-              ("branch", inst('{"child"}', "W3", "VocabBranchQ", 2, maxrich=2))]
+              ("branch", inst('{"child"}', "W3", "VocabBranchQ", 2, maxrich=2)),
+              ("mix", inst('{"child"}', "W32", "VocabMixQ", 3, maxrich=3, keep="KeepMix"))]
     return s
 
 
@@ -126,6 +139,18 @@ def _rhs(sigs, r):
         return A ^ B
     if f == "cat":
         return Cat(_operand(sigs, r["a"], 1), _operand(sigs, r["b"], n - 1))
+    if f in ("notcat", "andcat", "orcat", "xorcat", "muxcat"):
+        C = Cat(_operand(sigs, r["a"], 1), _operand(sigs, r["b"], n - 1))
+        return {"notcat": lambda: ~C, "andcat": lambda: C & X, "orcat": lambda: C | X, "xorcat": lambda: C ^ X,
+                "muxcat": lambda: Mux(sigs[0][2], C, X)}[f]()
+    if f == "shl":
+        return A << _operand(sigs, r["b"], 1)
+    if f == "any":
+        return A.any()
+    if f == "xorr":
+        return A.xor()
+    if f == "bsel":
+        return A.bit_select(_operand(sigs, r["b"], 1), 1)
     if f == "mux":
         return Mux(_operand(sigs, r["a"], 1), B, X)
     if f == "muxe":
@@ -232,7 +257,7 @@ def build(cfg, route, order=None):
     sigs = _signals(cfg)
     d1, d2 = ClockDomain("d1"), ClockDomain("d2")
     extra_ports = []
-    dsl = route in ("dsl", "lib")
+    dsl = route in ("dsl", "lib")          # "frag": Fragment API + build_netlist; "fragc": Fragment API + rtlil.convert
     try:
         if dsl:
             mods = [Module() for _ in parents]
@@ -333,6 +358,9 @@ def build(cfg, route, order=None):
             text = rtlil.convert(mods[0], ports=ports)
             if "module" not in text:
                 raise MachineryError("rtlil.convert returned no module")
+        elif route == "fragc":
+            if "module" not in rtlil.convert(mods[0], ports=ports):
+                raise MachineryError("rtlil.convert returned no module")
         else:
             build_netlist(mods[0], ports=ports)
         return "ok", "-"
@@ -366,6 +394,16 @@ def render(cfg):
             e = "%s %s %s" % (op(r["a"], n), {"and": "&", "or": "|", "xor": "^", "add": "+", "eq": "==", "lt": "<"}[f], op(r["b"], n))
         elif f == "cat":
             e = "Cat(%s, %s)" % (op(r["a"], 1), op(r["b"], n - 1))
+        elif f in ("notcat", "andcat", "orcat", "xorcat", "muxcat"):
+            cc = "Cat(%s, %s)" % (op(r["a"], 1), op(r["b"], n - 1))
+            e = {"notcat": "~%s", "andcat": "%s & x[0:{n}]", "orcat": "%s | x[0:{n}]", "xorcat": "%s ^ x[0:{n}]",
+                 "muxcat": "Mux(x[2], %s, x[0:{n}])"}[f].replace("{n}", str(n)) % cc
+        elif f == "shl":
+            e = "%s << %s" % (op(r["a"], n), op(r["b"], 1))
+        elif f in ("any", "xorr"):
+            e = "%s.%s()" % (op(r["a"], n), {"any": "any", "xorr": "xor"}[f])
+        elif f == "bsel":
+            e = "%s.bit_select(%s, 1)" % (op(r["a"], n), op(r["b"], 1))
         elif f == "mux":
             e = "Mux(%s, %s, x[0:%d])" % (op(r["a"], 1), op(r["b"], n), n)
         else:
@@ -391,7 +429,12 @@ def _has_lib(cfg):
                for r in cfg["drv"])
 
 
-def check_config(cfg):
+def _orders(n):
+    import itertools
+    return [list(p) for p in itertools.permutations(range(n))]
+
+
+def check_config(cfg, perms=False):
     """All routes for one configuration: list of (route, statement order, allowed set, class, layer).
     Program order matters to the oracle (dead assignments), so the DSL route uses the order of the record sequence
     (allowed set `exp`) and the Fragment route the reversed order (allowed set `expr`, computed by TLC on Reverse(drv))."""
@@ -401,17 +444,28 @@ def check_config(cfg):
     obs = [("dsl", fwd, cfg["exp"]) + build(cfg, "dsl", fwd), ("frag", rev, cfg["expr"]) + build(cfg, "frag", rev)]
     if _has_lib(cfg):
         obs.append(("lib", fwd, cfg["exp"]) + build(cfg, "lib", fwd))
+    if perms and cfg.get("ofree") and n >= 2:
+        # no driver assigns a bit twice: TLC has checked (PermutationInvariance) that `exp` is the allowed set for every
+        # statement order, so every order is built: all of them through the DSL + rtlil.convert, every other one through
+        # the Fragment API + build_netlist / rtlil.convert alternately
+        for j, o in enumerate(_orders(n)[:24]):
+            if o != fwd:
+                obs.append(("dsl", o, cfg["exp"]) + build(cfg, "dsl", o))
+            if j % 2 == 1 and o != rev:
+                r2 = "fragc" if j % 4 == 1 else "frag"
+                obs.append((r2, o, cfg["exp"]) + build(cfg, r2, o))
+        obs.append(("fragc", fwd, cfg["exp"]) + build(cfg, "fragc", fwd))
     return obs
 
 
 def _state_to_cfg(st, parents):
     drv = tuple(dict(r) if not isinstance(r, dict) else r for r in st["drv"])
     return {"shape": str(st["shape"]), "ws": tuple(st["ws"]), "drv": drv, "parents": tuple(parents[str(st["shape"])]),
-            "exp": sorted(str(x) for x in st["exp"]), "expr": sorted(str(x) for x in st["expr"])}
+            "exp": sorted(str(x) for x in st["exp"]), "expr": sorted(str(x) for x in st["expr"]), "ofree": bool(st["ofree"])}
 
 
 def _worker(job):
-    path, lo, hi, parents = job
+    path, lo, hi, parents, perms = job
     out = {"n": 0, "mism": [], "fps": [], "classes": {}, "layers": {}, "exp": {}, "sample": {}, "routes": 0}
     with warnings.catch_warnings():
         warnings.simplefilter("ignore")
@@ -422,10 +476,10 @@ def _worker(job):
             out["fps"].append(hash(text))
             ek = "|".join(cfg["exp"])
             out["exp"][ek] = out["exp"].get(ek, 0) + 1
-            for route, order, allowed, cls, layer in check_config(cfg):
+            for route, order, allowed, cls, layer in check_config(cfg, perms):
                 out["routes"] += 1
                 out["classes"][cls] = out["classes"].get(cls, 0) + 1
-                if cls == "driver_conflict":
+                if cls == "driver_conflict" and route != "fragc":
                     lk = route + ":" + layer
                     out["layers"][lk] = out["layers"].get(lk, 0) + 1
                 if cls not in allowed:
@@ -464,12 +518,13 @@ def report(ctx, stage, mm):
 def run_tlc(ctx, name, ins):
     dump = os.path.join(ctx.tmp, "drv_" + name)
     args = ("-dump", dump) + (("-coverage", "1") if name == COVERAGE_STAGE else ())
-    return ctx.tlc("Drivers", stage="mc/" + name, cfg_text=CFG.format(**ins), workers=4, args=args, timeout=3000), dump + ".dump"
+    return ctx.tlc("Drivers", stage="mc/" + name, cfg_text=CFG.format(**ins), workers=5 if ctx.thorough else 2, args=args,
+                   timeout=3000), dump + ".dump"
 
 
 def run_stage(ctx, name, r, path, totals):
     parents = _parents_from(r)
-    jobs = [(path, lo, hi, parents) for lo, hi in expr_replay.split_dump(path, 64)]
+    jobs = [(path, lo, hi, parents, name in PERM_STAGES) for lo, hi in expr_replay.split_dump(path, 64)]
     res = pmap(_worker, jobs)
     os.unlink(path)
     n = sum(x["n"] for x in res)
@@ -499,8 +554,11 @@ def run(ctx):
     th = ctx.thorough
     totals = {"classes": {}, "layers": {}, "exp": {}}
     sts = stages(th)
+    # import amaranth once, before the worker pools fork (otherwise every worker of every stage imports it again)
+    import amaranth.hdl, amaranth.hdl._mem, amaranth.hdl._ir, amaranth.back.rtlil, amaranth.lib.memory, amaranth.lib.io  # noqa: E401,F401
     # the TLC runs are independent: start them together (JVM start-up dominates the small ones)
-    with ThreadPoolExecutor(len(sts)) as ex:
+    # quick: small state spaces, 2-worker JVMs (cheap start-up mode of harness/tlc.py), all at once; thorough: 5 workers, 3 at once
+    with ThreadPoolExecutor(3 if th else len(sts)) as ex:
         futs = [(name, ex.submit(run_tlc, ctx, name, ins)) for name, ins in sts]
         tlc_res = [(name,) + f.result() for name, f in futs]
     for name, r, path in tlc_res:
